@@ -382,7 +382,7 @@ func checkC17(job *Job, res *Result) {
 	for _, state := range states {
 		var items []item
 		for _, name := range names {
-			if name == "FOLLOW" || name == "REPLCONF" || name == "AOFSHRINK" || name == "QUIT" || name == "AUTH" || name == "CONFIG SET" || name == "CONFIG REWRITE" || name == "READONLY" || name == "OUTPUT" {
+			if name == "FOLLOW" || name == "SLAVEOF" || name == "REPLCONF" || name == "AOFSHRINK" || name == "QUIT" || name == "AUTH" || name == "CONFIG SET" || name == "CONFIG REWRITE" || name == "READONLY" || name == "OUTPUT" {
 				if name != "OUTPUT" {
 					continue
 				}
